@@ -2,7 +2,7 @@ SPECIFICATION MCSpec
 CONSTANTS NA = 5
           NoBase <- MinusOne
           Lens <- Lens21111
-          KindIds = {3, 6}
+          KindIds = {3, 6, 7}
           Bases <- Bases2
           Tables = {3}
           SimTable = 1
